@@ -47,6 +47,7 @@ func (s *subscriptionsState) mergeSubscriptions(subscriptions []*api.Subscriptio
 func (s *subscriptionsState) dump(event *api.StateBroadcastEvent) {
 	subscriptions := s.All()
 	for _, subscription := range subscriptions {
+		subscription := subscription
 		event.Subscriptions = append(event.Subscriptions, &subscription)
 	}
 }
@@ -115,6 +116,7 @@ func (s *subscriptionsState) DeletePeer(peer uint64) {
 	event := &api.StateBroadcastEvent{Subscriptions: []*api.Subscription{}}
 
 	for _, subscription := range toDelete {
+		subscription := subscription
 		subscription.LastDeleted = now
 		s.set(subscription)
 		event.Subscriptions = append(event.Subscriptions, &subscription)
@@ -134,6 +136,7 @@ func (s *subscriptionsState) DeleteSession(id string) {
 	event := &api.StateBroadcastEvent{Subscriptions: []*api.Subscription{}}
 
 	for _, subscription := range toDelete {
+		subscription := subscription
 		subscription.LastDeleted = now
 		s.set(subscription)
 		event.Subscriptions = append(event.Subscriptions, &subscription)
